@@ -14,6 +14,14 @@ CHECKS = {
     ),
 }
 
+CHECKS["C15"] = dict(
+    technique="Coq proof over version gates translated from source (all versions v>=7 by lia) + exhaustive lint of the idiom corpus at every target version with typeshed-dated features",
+    category="proof",
+    text="Every settings.get_python_version() test in refurb/checks is translated (fail-closed) into a gate table; never_too_new (for all minor versions v>=7: a firing check's message needs <= v), monotone and message_switch_only_upgrades are Coq theorems over that table and a hand-written feature-minimum table. The real linter is run at every target 3.7..running version on an idiom corpus + test/data; every message is dated against typeshed guards and checked for monotonicity; model fires/variant is compared with the real runs.",
+    note="Trusted: Coq kernel; gates translator; Lib/Gates.v feature table (base_min/text_min) validated by the message scan (typeshed sys.version_info guards, floor 3.8, plus a hand list of 3.8 features).",
+    ref="C15",
+)
+
 NOT_APPLICABLE = {}
 
 
